@@ -38,7 +38,7 @@ def ordering_matrix(Rs):
     return np.vstack(columns)
 
 
-def matrix_rep(p=0, q=0, r=0, signature=None):
+def matrix_rep(p=0, q=0, r=0, signature=None, blades=None):
     """
     Create the matrix reps of all the basis blades of an algebra.
     These are selected such that the entries in the first column
@@ -48,6 +48,9 @@ def matrix_rep(p=0, q=0, r=0, signature=None):
     :param p: number of positive dimensions.
     :param q: number of negative dimensions.
     :param r: number of null dimensions.
+    :param blades: optional, for every basis blade in canonical order the tuple of indices into the signature
+        of the basis vectors it is the (ordered) product of, e.g. :code:`(2, 0)` for a blade named e31.
+        Needed for a custom basis. By default the blades are the combinations of the basis vectors.
     :return: sequence of matrix reps for the basis-blades.
     """
     d = p + q + r
@@ -90,6 +93,10 @@ def matrix_rep(p=0, q=0, r=0, signature=None):
         Rs_grade_i = [reduce(lambda x, y: x @ y, comb)
                       for comb in combinations(Es, r=i)]
         Rs.extend(Rs_grade_i)
+
+    if blades is not None:
+        # A custom basis: every blade is the product of its basis vectors in the order in which it spells them.
+        Rs = [reduce(lambda x, y: x @ y, (Es[i] for i in blade), Iden) for blade in blades]
 
     O = ordering_matrix(Rs)
     return [O @ Ri @ O.T for Ri in Rs]
